@@ -102,7 +102,7 @@ CHECKS = {
              "round trips and double pushes, A-B-A command sequences); after every position command the hook asks, for every legal move, the repetition answer the search would give "
              "at ply 1; TLC requires equality with RepDraw for every move (UciTrace.tla). The REAL search is observed too: a depth-1 search on the engine's "
              "own Searcher after every position command (event sink): every successor it enters must be valued as a draw (score zero, nothing searched "
-             "below) exactly when it is a third occurrence.",
+             "below) exactly when it is a third occurrence; a depth-2 search does the same for the nodes at ply 2.",
         design_ref="DESIGN.md section 5, C09", note=_UCI_NOTE + " The hook mirrors search_position (push root) + negamax's ply>0 query.",
         technique="TLA+ protocol spec with game history; TLC-simulated histories; TLC trace validation of repetition answers"),
     "C13": dict(
